@@ -39,6 +39,11 @@ SOURCES = {
     "named_h": "def h(a: bool, b: bool) -> bool:\n    return a and not b\n",
     "named_t": "def t(a: Qint[2]) -> bool:\n    return a == 1\n",
     "named_size": "def size(a: Qint[2]) -> Qint[2]:\n    return a + 1\n",
+    # custom types handed in with types=[...]
+    "ct_low": "def test(a: Qint10) -> bool:\n    return a[0] and not a[9]\n",
+    "ct_bad": "def test(a: Qint10) -> bool:\n    return a[0] + undefined_name\n",
+    "ct_narrow": "def test(a: Narrow) -> bool:\n    return a[0] ^ a[2]\n",
+    "ct_narrow_bad": "def test(a: Narrow, b: bool) -> bool:\n    return a and b\n",
     "ifelse": "def test(a: Qint[2], b: bool) -> Qint[2]:\n    c = a\n    if b:\n        c = a + 1\n    else:\n        c = a ^ 1\n    return c\n",
     "forloop": "def test(a: Qlist[bool, 3]) -> bool:\n    s = False\n    for x in a:\n        s = s ^ x\n    return s\n",
 }
@@ -109,6 +114,25 @@ def exec_op(op, objs):
     if k == "compile":
         _, sid, to_compile, prof, unc = op
         return qlassf(SOURCES[sid], to_compile=to_compile, bool_optimizer=profile(prof), uncompute=unc)
+    if k == "compile_types":
+        # ["compile_types", source id, key of a list of custom type classes]: the function is a real callable of a module
+        # that defines the classes its annotations name; `types=` hands the translator the listed ones
+        import importlib.util
+        import os
+        import tempfile
+
+        sizes = {"none": {}, "q10": {"Qint10": 10}, "narrow3": {"Narrow": 3}, "narrow5": {"Narrow": 5}, "both": {"Qint10": 10, "Narrow": 3}}[op[2]]
+        decl = dict({"Qint10": 10, "Narrow": 3}, **sizes)
+        hdr = "from qlasskit.types.qint import QintImp\n\n" + "".join(f"class {n}(QintImp):\n    BIT_SIZE = {b}\n\n\n" for n, b in decl.items())
+        d = os.environ.get("VQ_SCRATCH") or tempfile.gettempdir()
+        _COUNTER[0] += 1
+        path = os.path.join(d, f"c10types_{os.getpid()}_{_COUNTER[0]}.py")
+        with open(path, "w") as f:
+            f.write(hdr + SOURCES[op[1]])
+        spec = importlib.util.spec_from_file_location("c10types", path)
+        mod = importlib.util.module_from_spec(spec)
+        spec.loader.exec_module(mod)
+        return qlassf(mod.test, types=[getattr(mod, n) for n in sizes], to_compile=True)
     if k == "compile_callable":
         # the same source as a real Python callable (module file on disk, inspect.getsource) / through the decorator
         import importlib.util
